@@ -207,8 +207,16 @@ func main() {
 			for _, m := range r.Missed {
 				fmt.Printf("  self-test MISSED %s\n", m)
 			}
+			fmt.Printf("%s self-test: %d behaviour-preserving edit sets analysed, %d left the rule set silent\n", id, r.BenignApplied, r.BenignQuiet)
+			for _, m := range r.FalseAlarms {
+				fmt.Printf("  self-test FALSE ALARM on benign edit %s\n", m)
+			}
 		}
 		code := report(id, pr, all, known, *tier, seed, *evdir, fns, pathStates, pathEdges, cfgNames, progs[0].p, time.Since(t0), *verbose, *noEvidence, st)
+		if st != nil && len(st.FalseAlarms) > 0 && code == 0 {
+			fmt.Fprintf(os.Stderr, "raftlint: self-test: the %s rule set raised an alarm on a behaviour-preserving edit – the checker is brittle (tool failure, not a property verdict)\n", id)
+			code = 2
+		}
 		if st != nil && len(st.Missed) > 0 && code == 0 {
 			fmt.Fprintf(os.Stderr, "raftlint: self-test: %d registered mutant(s) were not reported by the %s rule set – the checker is weaker than claimed (tool failure, not a property verdict)\n", len(st.Missed), id)
 			code = 2
